@@ -9,6 +9,7 @@ of the alphabet the real cursor is driven through the traces
     mid       execute, fetchone, description, fetchall              read point "mid-fetch"
     after     execute, fetchall, fetchone, description, fetchone    read point "after exhaustion"
     dictmid   the mid trace on a DictCursor                         (names = DictCursor keys)
+    reuse     execute WARM_UP, description, execute, description, fetchall   (the cursor has described something else before)
     describe  describe(sql, params) on a fresh cursor, nothing executed before
 
 each on its own connection; statements that change state get a fresh instance per trace, state-preserving ones share one
@@ -27,6 +28,8 @@ Oracle clauses
                              scale are those of the declared type (c06_model.declared_mismatch)
   C06.read_point             the description read mid-fetch / after exhaustion / a second time equals the one read before
                              any fetch
+  C06.reexecute              on a cursor that executed and described another statement before, description is the one of
+                             the statement executed last (= the description of the before trace) and the rows are its rows
   C06.describe_available     describe(sql, params) returns (no exception) for a statement that executes successfully
   C06.describe_equal         describe(sql, params) == description after execute(sql, params)
   C06.describe_not_executed  describe leaves the digest and the session context unchanged (nothing was executed), and
@@ -294,10 +297,10 @@ def _build():
     Q("fn_uuid_string", "function_uuid", [("uuid_string()", "x")], volatile=True)
     # -- semi-structured constructors and navigation -------------------------------------------------------------------------
     for sid, e, frm, form in [
-        ("array_construct", "array_construct(1, 2)", None, "array_constructor"), ("array_construct_empty", "array_construct()", None, "array_constructor_empty"),
+        ("array_construct", "array_construct(1, 2)", None, "array_constructor"), ("array_construct_empty", "array_construct()", None, "array_constructor"),
         ("array_construct_str", "array_construct('a', 'b')", None, "array_constructor"), ("array_literal", "[1, 2]", None, "array_constructor"),
         ("array_agg", "array_agg(a)", "t", "semi"), ("array_agg_within", "array_agg(a) within group (order by a desc)", "t", "semi"),
-        ("split", "split('a,b', ',')", None, "array_constructor"), ("object_construct", "object_construct('a', 1, 'b', 'x')", None, "semi"),
+        ("split", "split('a,b', ',')", None, "semi"), ("object_construct", "object_construct('a', 1, 'b', 'x')", None, "semi"),
         ("object_literal", "{'a': 1}", None, "semi"),
         ("parse_json_obj", "parse_json('{\"a\": 1}')", None, "semi"), ("parse_json_arr", "parse_json('[1, 2]')", None, "semi"),
         ("parse_json_num", "parse_json('1')", None, "semi"), ("try_parse_json", "try_parse_json('{\"a\": 1}')", None, "semi"),
@@ -358,9 +361,9 @@ def _build():
     # -- seeded RANDOM / SAMPLE ----------------------------------------------------------------------------------------------
     Q("seeded_random", "random_seeded", [("random(42)", "r")], kind="seeded")
     Q("seeded_random_unaliased", "random_seeded", ["random(42)"], kind="seeded")
-    Q("seeded_random_rows", "random_seeded", [("a", None), ("random(7)", "r")], "from t order by a", kind="seeded")
+    Q("seeded_random_rows", "random_seeded_multi", [("a", None), ("random(7)", "r")], "from t order by a", kind="seeded")
     S("seeded_random_cte", "seeded", "random_seeded", "with q as (select random(3) as r) select r from q", names=["R"], ncols=1)
-    Q("seeded_random_two", "random_seeded", [("random(1)", "r1"), ("1", "one")], kind="seeded")
+    Q("seeded_random_two", "random_seeded_multi", [("random(1)", "r1"), ("1", "one")], kind="seeded")
     Q("seeded_sample_seed", "sample", ["a"], "from t sample (50) seed (1)", kind="seeded", decl=["INT"])
     Q("seeded_sample_100", "sample", ["a"], "from t sample (100) order by a", kind="seeded", decl=["INT"])
     Q("seeded_tablesample", "sample", ["a", "b"], "from t tablesample bernoulli (100) order by a", kind="seeded", decl=["INT", "VARCHAR"])
@@ -449,14 +452,14 @@ def _build():
     ]:
         S(f"use_{sid}", "use", "use", sql)
     # -- transactions -------------------------------------------------------------------------------------------------------------
-    S("tx_begin", "tx", "begin", "begin")
-    S("tx_begin_transaction", "tx", "begin", "begin transaction")
-    S("tx_commit_open", "tx", "commit_open", "commit", pre=["begin", "insert into t values (50, 'tx')"])
-    S("tx_commit_open_empty", "tx", "commit_open", "commit", pre=["begin"])
-    S("tx_rollback_open", "tx", "rollback_open", "rollback", pre=["begin", "insert into t values (50, 'tx')"])
-    S("tx_rollback_open_empty", "tx", "rollback_open", "rollback", pre=["begin"])
-    S("tx_commit_idle", "tx", "commit_idle", "commit")
-    S("tx_rollback_idle", "tx", "rollback_idle", "rollback")
+    S("tx_begin", "tx", "effective", "begin")
+    S("tx_begin_transaction", "tx", "effective", "begin transaction")
+    S("tx_commit_open", "tx", "effective", "commit", pre=["begin", "insert into t values (50, 'tx')"])
+    S("tx_commit_open_empty", "tx", "effective", "commit", pre=["begin"])
+    S("tx_rollback_open", "tx", "effective", "rollback", pre=["begin", "insert into t values (50, 'tx')"])
+    S("tx_rollback_open_empty", "tx", "effective", "rollback", pre=["begin"])
+    S("tx_commit_idle", "tx", "idle", "commit")
+    S("tx_rollback_idle", "tx", "idle", "rollback")
     # statements executed (and described) inside an open transaction; afterwards the transaction is rolled back /
     # committed and the final digest compared with the control trace: the read neither committed nor rolled back
     _intx = ["begin", "insert into t values (50, 'tx')"]
@@ -519,7 +522,7 @@ def _build():
         Q(f"param_{style}_where_0", f"{style}_select", ["a"], f"from t where b = {ph}", kind="param", style=style, params=("nope",), decl=["INT"])
         Q(f"param_{style}_mixed", f"{style}_select", [("a", None), (ph, "p")], f"from t where a in ({ph}, {ph}) order by a", kind="param", style=style, params=("k", 1, 2))
         Q(f"param_{style}_cast", f"{style}_select", [(f"{ph}::number(10,2)", "x")], kind="param", style=style, params=(1,))
-        Q(f"param_{style}_sum", f"{style}_sum_int", [("sum(a)", "x")], f"from t where a > {ph}", kind="param", style=style, params=(0,))
+        Q(f"param_{style}_sum", "sum_int", [("sum(a)", "x")], f"from t where a > {ph}", kind="param", style=style, params=(0,))
         S(f"param_{style}_insert", "param", f"{style}_dml", f"insert into t values ({ph}, {ph})", style=style, params=(7, "q"))
         S(f"param_{style}_insert_select", "param", f"{style}_dml", f"insert into t select a, {ph} from src", style=style, params=("q",))
         S(f"param_{style}_update", "param", f"{style}_dml", f"update t set b = {ph} where a = {ph}", style=style, params=("k", 1))
@@ -574,10 +577,7 @@ def tgroup(t) -> str:
     return t["family"]
 
 
-QUICK_TYPES = (
-    "BOOLEAN", "INT", "NUMBER", "NUMBER(10,0)", "NUMBER(10,2)", "FLOAT", "VARCHAR", "DATE", "TIME", "TIMESTAMP_NTZ",
-    "TIMESTAMP_TZ", "BINARY", "VARIANT", "OBJECT", "ARRAY",
-)
+QUICK_TYPES = ("BOOLEAN", "INT", "NUMBER(10,0)", "NUMBER(10,2)", "FLOAT", "VARCHAR", "DATE", "TIMESTAMP_TZ", "BINARY", "VARIANT")
 
 
 def _build_product():
@@ -612,7 +612,8 @@ _build_product()
 BY_SID = {s["sid"]: s for s in STATEMENTS}
 
 READ_POINTS = ("before", "mid", "after")
-TRACES = ("control", "before", "mid", "after", "dictmid", "describe")
+TRACES = ("control", "before", "mid", "after", "dictmid", "reuse", "describe")
+WARM_UP = "select 'w' as warm, 1.5 as up"  # what a reused cursor executed and described before
 
 
 def statements(tier):
@@ -731,6 +732,9 @@ def run_trace(st, trace):
                 out["autocommit_after"] = c2.fetchall()[0][0] == 1
             return out
         try:
+            if trace == "reuse":
+                cur.execute(WARM_UP)
+                out["warm_desc"] = _meta(cur.description)
             if params is None:
                 cur.execute(st["sql"])
             else:
@@ -785,7 +789,7 @@ def judge(st, tr):
     ctl = tr["control"]
     rows = ctl["rows"]
     reads = {rp: tr[rp] for rp in READ_POINTS}
-    allreads = dict(reads, dictmid=tr["dictmid"])
+    allreads = dict(reads, dictmid=tr["dictmid"], reuse=tr["reuse"])
 
     # (1) available at every read point
     bad_at = [rp for rp, t in allreads.items() if "desc" not in t]
@@ -798,8 +802,13 @@ def judge(st, tr):
     pend_bad = {}
     for rp, t in allreads.items():
         got = t["rows"]
+        if rp == "reuse":
+            continue  # judged by C06.reexecute
         if rp == "dictmid":
-            continue
+            # dict rows carry every column only when the names are unique; then their values are the control's rows
+            if not got or not rows or len(got[0]) != len(rows[0]):
+                continue
+            got = [tuple(r.values()) for r in got]
         same = _rows_equal(got, rows, st["volatile"])
         if not same:
             pend_bad[rp] = {"expected": rows[:3], "got": got[:3], "n": (len(rows), len(got))}
@@ -812,10 +821,14 @@ def judge(st, tr):
     desc = tr["before"].get("desc")
     if desc is not None:
         # read point independence
-        diff = {rp: _short(t["desc"]) for rp, t in allreads.items() if "desc" in t and t["desc"] != desc}
+        diff = {rp: _short(t["desc"]) for rp, t in allreads.items() if rp != "reuse" and "desc" in t and t["desc"] != desc}
         if "desc2" in tr["before"] and tr["before"]["desc2"] != desc:
             diff["second_read"] = _short(tr["before"]["desc2"])
         res.append(("C06.read_point", bool(diff), "", {"before": _short(desc), "differs": diff}))
+        ru = tr["reuse"]
+        if "desc" in ru:
+            bad = ru["desc"] != desc or not _rows_equal(ru["rows"], rows, st["volatile"])
+            res.append(("C06.reexecute", bad, "", {"after_reuse": _short(ru["desc"]), "fresh_cursor": _short(desc), "rows": ru["rows"][:2]} if bad else None))
 
         names = [m[0] for m in desc]
         # (2) length
@@ -912,7 +925,7 @@ def check_statement(sid, acc: core.Acc, tier):
         acc.note(f"not executed: {sid}: {(ctl.get('exec_err') or ctl.get('fetch_err'))[0]}")
         acc.obs((sid, "not_executed", ctl.get("exec_err") or ctl.get("fetch_err")))
         return None
-    for t in TRACES[1:5]:
+    for t in TRACES[1:6]:
         if "exec_err" in tr[t] or "fetch_err" in tr[t]:
             raise core.HarnessError(f"{sid}: trace {t} failed where the control trace succeeded: {tr[t]}")
     # model side: the fetch state machine; description is the identity on it
@@ -960,8 +973,8 @@ def run(ctx: core.Ctx):
     sts = statements(ctx.tier)
     ctx.rule = (
         "every statement of the written-out alphabet (statement kinds x expression forms x column types x bound "
-        "parameters) is driven through 6 traces on the real cursor (control / description read before any fetch, "
-        "mid-fetch, after exhaustion / DictCursor mid-fetch / describe()); model state = (statement, fetch position), "
+        "parameters) is driven through 7 traces on the real cursor (control / description read before any fetch, "
+        "mid-fetch, after exhaustion / DictCursor mid-fetch / reused cursor / describe()); model state = (statement, fetch position), "
         "description and describe are self-loops; evaluations = traces executed; non-trivial = statements whose "
         "description has several entries, rows to agree with, or a declared type to agree with"
     )
